@@ -16,9 +16,11 @@ TRUSTED = ["CPython/PyTorch object semantics as observed through untyped_storage
            "histories are built from the derivations the property names; handing one tensor's `cores` list object to another constructor is not generated"]
 ASSUMPTIONS = []
 
-PURE = ["dot", "norm", "sum", "mean", "var", "sobol", "mean_marg", "dgsm", "relerr", "mask_small", "mask_small"]
+PURE = ["dot", "norm", "sum", "mean", "var", "sobol", "mean_marg", "dgsm", "relerr", "mask_small", "mask_small",
+        "mean_partial", "mean_partial", "sum_partial", "std", "normsq", "dist"]
 DERIVE = ["slice", "transpose", "clone", "add", "sub", "mul", "smul", "sadd", "flip", "cat", "cumsum", "round_tt_copy", "round_copy",
-          "decompress", "tt", "neg", "hadamard_sum"]
+          "decompress", "tt", "neg", "hadamard_sum", "partial", "ttm", "pad", "repeat", "unsqueeze", "anova", "undo_anova", "truncate_anova",
+          "unbind", "accepted", "relevant"]
 INPLACE = ["round_tt", "round_tucker", "round", "orthogonalize", "setitem", "set_factors", "as_leaf"]
 
 
@@ -98,6 +100,7 @@ def run_case(ctx, case):
                 st_before[ptr] = (st, hash_storage(st)); owner.setdefault(ptr, set()).add(i)
         receiver = None
         new = None
+        extra = []          # (tensor created inside the step, its snapshot before the call under test, label)
 
         def call():
             nonlocal receiver, new
@@ -111,6 +114,20 @@ def run_case(ctx, case):
                 tn.mean(a)
             elif op == "var":
                 tn.var(a)
+            elif op in ("mean_partial", "sum_partial"):
+                # any non-empty subset of modes (often WITHOUT mode 0), either keepdim, negative positions
+                dims = sorted(rng.sample(range(N), rng.randint(1, N)))
+                if rng.random() < 0.5 and 0 in dims and len(dims) > 1:
+                    dims.remove(0)
+                dims = [d - N if rng.random() < 0.3 else d for d in dims]
+                r_ = (tn.mean if op == "mean_partial" else tn.sum)(a, dim=dims if rng.random() < 0.8 or len(dims) > 1 else dims[0], keepdim=rng.random() < 0.5)
+                new = r_ if isinstance(r_, tn.Tensor) else None
+            elif op == "std":
+                tn.std(a)
+            elif op == "normsq":
+                tn.normsq(a)
+            elif op == "dist":
+                tn.dist(a, b)
             elif op == "relerr":
                 tn.relative_error(a, b)
             elif op == "sobol":
@@ -125,6 +142,33 @@ def run_case(ctx, case):
                 new = tn.mask(a, mk)
             elif op == "hadamard_sum":
                 tn.hadamard_sum([a, b])
+            elif op == "partial":
+                new = tn.partial(a, rng.randrange(N), order=rng.choice([1, 2]))
+            elif op == "ttm":
+                m_ = rng.randrange(N)
+                new = tn.ttm(a, torch.tensor(np.array([[rng.uniform(-1, 1) for _ in range(a.shape[m_])] for _ in range(2)])), dim=m_)
+            elif op == "pad":
+                new = tn.pad(a, [rng.randint(a.shape[k], a.shape[k] + 1) for k in range(N)], dim=list(range(N)), fill_value=rng.choice([0, 1.5]))
+            elif op == "repeat":
+                new = a.repeat(*[rng.randint(1, 2) for _ in range(N)])
+            elif op == "unsqueeze":
+                new = tn.unsqueeze(a, rng.randint(0, N))
+            elif op == "anova":
+                tn.anova_decomposition(a, marginals=margs if rng.random() < 0.5 else None)
+            elif op == "undo_anova":
+                aa = tn.anova_decomposition(a)
+                extra.append((aa, snapshot(aa), "the ANOVA tensor passed to undo_anova_decomposition"))
+                tn.undo_anova_decomposition(aa)
+            elif op == "truncate_anova":
+                tn.truncate_anova(a, tn.only(tn.symbols(N)[0]), keepdim=rng.random() < 0.5)
+            elif op == "unbind":
+                tn.unbind(a, rng.randrange(N))
+            elif op == "accepted":
+                tn.accepted_inputs(tn.weight_mask(N, 1)); tn.sum(a * 0 + 1)
+            elif op == "relevant":
+                f_ = tn.symbols(N)[0] | tn.symbols(N)[-1]
+                extra.append((f_, snapshot(f_), "the formula passed to relevant_symbols / tn.round"))
+                tn.relevant_symbols(f_); tn.round(f_)
             elif op == "slice":
                 key = tuple(py_key([gen_slice(rng, s) for s in shape]))
                 r = a[key]
@@ -188,6 +232,12 @@ def run_case(ctx, case):
             if s2[0] == "err" or not same(before[i], s2[1]):
                 ctx.oracle("step %d (%s on tensor %d%s): tensor %d changed (value, format or ranks)" %
                            (step, op, ia, "" if op not in ("add", "sub", "mul", "cat", "dot", "relerr") else " and %d" % ib, i), case,
+                           cls={"op": op, "predicate": "another tensor changed"})
+                return
+        for tx, sx, label in extra:
+            s3 = safe(lambda: snapshot(tx))
+            if s3[0] == "err" or not same(sx, s3[1]):
+                ctx.oracle("step %d (%s): %s changed (value, format or ranks)" % (step, op, label), case,
                            cls={"op": op, "predicate": "another tensor changed"})
                 return
         for m, m0 in zip(margs, margs0):
